@@ -188,6 +188,11 @@ class Builder:
         m = getattr(self, 'st_' + type(st).__name__, None)
         if m is not None:
             return m(st, fr, k)
+        # a compound statement this builder has no rule for (match, try*, async for/with, ...) must not be flattened: its nested
+        # statements would silently disappear from every path rule -> fail closed
+        if any(isinstance(getattr(st, f, None), list) and getattr(st, f) and isinstance(getattr(st, f)[0], (ast.stmt, ast.ExceptHandler) + ((ast.match_case,) if hasattr(ast, 'match_case') else ()))
+               for f in ('body', 'orelse', 'finalbody', 'handlers', 'cases')):
+            raise AnalysisError(f'{fr.fn.module.relpath}:{st.lineno}: statement kind `{type(st).__name__}` is not modelled by the control-flow builder')
         # default: evaluate sub-expressions, then one 'stmt' node
         n = g.node('stmt', st, fr)
         g.edge(n, k.next)
